@@ -78,8 +78,10 @@ def check_values(ctx):
                 add('point_to_ray_distance', 'gc_linedist %s %s %s' % (fl(q), fl(c), fl(p)),
                     [point_to_ray_distance(q.reshape(1, 3), c.copy(), p.copy())], rec)
                 add('cylinder_function', 'gc_cylfn %s %s' % (fl(q), fl(cyl)), [cylinder_function(q.copy(), cyl.copy())], rec)
-                add('get_cylinder_normal', 'gc_cylnormal %s %s' % (fl(q), fl(cyl)),
-                    np.asarray(get_cylinder_normal(q.copy(), cyl.copy()), dtype=np.float64).reshape(6), rec)
+                # a point ON the axis: the direction is (q - foot) / |q - foot| with q - foot = rounding noise (0 / 0 or a random unit vector): only the
+                # foot of the perpendicular is compared there
+                add('get_cylinder_normal' + (' (point on the axis: foot only)' if j == 1 and name != 'degenerate_axis' else ''),
+                    'gc_cylnormal %s %s' % (fl(q), fl(cyl)), np.asarray(get_cylinder_normal(q.copy(), cyl.copy()), dtype=np.float64).reshape(6), rec)
                 d = np.array([rng.gauss(0, 1) for _ in range(3)]) if j else np.zeros(3)
                 if j == 2:
                     d = unit(d)
@@ -93,6 +95,8 @@ def check_values(ctx):
             got = np.array([b2f(t) for t in out.split()], dtype=np.float64)
         except ValueError:
             got = np.array([])
+        if 'foot only' in tag:
+            got, want = got[:3], want[:3]
         if not close(got, want, 1e-9):
             bad += 1
             if bad <= 5:
